@@ -132,6 +132,8 @@ func genFor(prop, tier string, seed int64, phase string) {
 		}
 	case "C16":
 		runStrings(-70000, 70000)
+	case "XNFKD":
+		runNFKDProbes(seed, map[string]int{"quick": 3000, "thorough": 60000}[tier])
 	case "C04":
 		cutEvery = 36
 		runSeeds(tier, seed)
